@@ -514,6 +514,7 @@ def exec_op(env: Env, op: dict):
     if k == "replay":
         return ("bool", bool(q.replay_dlq(op["did"])))
     if k in ("cutmove", "cutreplay"):
+        q._get_connection()          # (re)open the connection first: its PRAGMAs are not statements of the operation
         env.crash_at, env.stmt_count, env.crash_thread = op["k"], 0, threading.get_ident()
         try:
             if k == "cutmove":
@@ -805,13 +806,14 @@ def run_sequence(cfg: dict, tz, source, drain: bool = True):
             ops.append(op)
             obs.append(cq_obs(rows, dl, r))
             results.append(r)
+        n_body = len(ops)
         if drain:
             drain_and_check(env, mon, ops, obs, len(rows))
         if env.queue(0)._get_connection().in_transaction:
             env.dangling += 1
     finally:
         env.close()
-    return {"cfg": cfg, "tz": tz, "ops": ops, "case": cq_case(cfg, ops, obs), "found": mon.found, "results": results}
+    return {"cfg": cfg, "tz": tz, "ops": ops, "n_body": n_body, "case": cq_case(cfg, ops, obs), "found": mon.found, "results": results}
 
 
 DELAYS = [None, None, None, 0, 500, 1000, 1500, 2500, 61000, -2000]
@@ -1435,7 +1437,7 @@ def run(ctx) -> RunResult:
             account(r, "named")
             cases.append(r["case"])
             metas.append({"stream": "named", "name": name, "cfg": cfg, "ops": r["ops"]})
-            viols += _violations_of(r["found"], {"kind": "seq", "cfg": cfg, "tz": None, "ops": r["ops"], "name": name})
+            viols += _violations_of(r["found"], {"kind": "seq", "cfg": cfg, "tz": None, "ops": r["ops"][:r["n_body"]], "name": name})
             if len(res.samples) < 2:
                 res.samples.append({"name": name, "cfg": cfg, "ops": r["ops"][:8], "results": [list(x) for x in r["results"][:8]]})
         # 2. time zones
@@ -1445,7 +1447,7 @@ def run(ctx) -> RunResult:
             account(r, "tz")
             cases.append(r["case"])
             metas.append({"stream": "tz", "name": name, "cfg": cfg, "tz": tz, "ops": r["ops"]})
-            viols += _violations_of(r["found"], {"kind": "seq", "cfg": cfg, "tz": tz, "ops": r["ops"], "name": name})
+            viols += _violations_of(r["found"], {"kind": "seq", "cfg": cfg, "tz": tz, "ops": r["ops"][:r["n_body"]], "name": name})
         # 3. random sequential
         nseq = 4000 if thorough else 400
         for i in range(nseq):
@@ -1455,7 +1457,7 @@ def run(ctx) -> RunResult:
             account(r, "random-sequential")
             cases.append(r["case"])
             metas.append({"stream": "random-sequential", "index": i, "cfg": cfg, "ops": r["ops"]})
-            viols += _violations_of(r["found"], {"kind": "seq", "cfg": cfg, "tz": None, "ops": r["ops"]})
+            viols += _violations_of(r["found"], {"kind": "seq", "cfg": cfg, "tz": None, "ops": r["ops"][:r["n_body"]]})
             if i == 0:
                 res.samples.append({"name": "random-0", "cfg": cfg, "ops": r["ops"][:10]})
         # 4. concurrent
@@ -1512,13 +1514,13 @@ def search(ctx, broken) -> list:
             if i % 3:
                 cfg = random_cfg(rng)
                 r = run_sequence(cfg, None, random_source(rng, cfg, 60))
-                out += [v for v in _violations_of(r["found"], {"kind": "seq", "cfg": cfg, "tz": None, "ops": r["ops"]})]
+                out += [v for v in _violations_of(r["found"], {"kind": "seq", "cfg": cfg, "tz": None, "ops": r["ops"][:r["n_body"]]})]
             else:
                 c, s, t, sc = conc_random(rng)
                 r = run_concurrent(c, s, t, sc)
                 out += [v for v in _violations_of(r["found"], {"kind": "conc", "cfg": c, "setup": s, "thread_ops": t, "schedule": sc})]
             known = {k.get("signature") for k in lib.load_known() if k.get("property") == PID}
-            out = [v for v in out if v.signature not in known] + [v for v in out if v.signature in known][:0]
+            out = [v for v in out if v.signature not in known]      # the known ones are reported by run() already
     finally:
         _uninstall()
         logging.disable(prev_disable)
@@ -1534,8 +1536,7 @@ def replay(obj) -> bool:
         if r.get("kind") == "conc":
             got = run_concurrent(r["cfg"], r["setup"], r["thread_ops"], r["schedule"])
         else:
-            got = run_sequence(r["cfg"], r.get("tz"), [o for o in r["ops"]], drain=False)
-            # the recorded ops already contain the drain epilogue
+            got = run_sequence(r["cfg"], r.get("tz"), [o for o in r["ops"]], drain=True)   # body + the drain epilogue, as in run()
         sig = r.get("signature") or obj.get("signature")
         found = [s for s, _ in got["found"]]
         for s, w in got["found"]:
